@@ -1,5 +1,5 @@
 """C03 -- decoding honours the WIRE blockLength / numInGroup (schema extension), for random access."""
-import hgen, msggen, c01, c02, c04, c12
+import hgen, msggen, c01, c02, c04, c12, c19
 from hgen import P, M
 from msggen import SZ, pn, idx
 
@@ -24,26 +24,30 @@ def size_arms(g, lv):
     return arms
 
 
+KEEP2 = ("pad", "arrmid", "lastcomp", "lastset", "cfirst", "empty", "d3")   # quick tier: the nested messages of vs_msg2 (gng, g3) need minutes with G=2
+
+
 def build(ctx):
     hs = []
     G, D, E = 2, ctx.q(1, 2), ctx.q(2, 4)
     ctx.assumptions = ["wire blockLength of the root block and of every group symbolic in [compiled, compiled+%d] independently per level; numInGroup <= %d; data length <= %d; all bytes symbolic" % (E, G, D),
-                       "random access (get/set/size) and the one-step cursor protocol under extension are checked here; visiting under extension is exercised by C19 (same extended-geometry walker)"]
-    plan = [("vs_msg_le.xml", "17", "checked"), ("vs_msg_be.xml", "20", "checked")] if ctx.quick else \
+                       "random access (get/set/size), the one-step cursor protocol, cursor ranges/sub-ranges and visiting (recording visitor) are all checked under extension here"]
+    plan = [("vs_msg_le.xml", "17", "checked"), ("vs_msg_be.xml", "20", "checked"), ("vs_msg2_le.xml", "17", "checked")] if ctx.quick else \
         [("vs_msg_le.xml", "17", "checked"), ("vs_msg_be.xml", "17", "checked"), ("vs_msg_le.xml", "20", "checked"), ("vs_msg_be.xml", "20", "checked"),
-         ("vs_msg_le.xml", "11", "checked"), ("vs_msg_be.xml", "14", "checked"), ("vs_msg_le.xml", "17", "unchecked")]
+         ("vs_msg_le.xml", "11", "checked"), ("vs_msg_be.xml", "14", "checked"), ("vs_msg_le.xml", "17", "unchecked"), ("vs_msg2_le.xml", "17", "checked"), ("vs_msg2_be.xml", "20", "checked")]
     plan = hgen.plan_env(plan)
     for (xml, std, mode) in plan:
         sch, inc = hgen.gen_headers(ctx, xml)
         for msg in sch.messages:
             if ctx.quick and msg.name in c02.QUICK_SKIP: continue
+            if c02.skip2(ctx, sch, msg, KEEP2): continue
             g = msggen.MG(sch, msg, G)
-            u = ctx.lower("c03_%s_%s" % (sch.ns, msg.name), g.cpp_prelude() + g.cpp_getset(setters=True) + g.cpp_geom(mutators=True, sizes=True) + g.cpp_cursor(), std=std, mode=mode, incs=[inc])
+            u = ctx.lower("c03_%s_%s" % (sch.ns, msg.name), g.cpp_prelude() + g.cpp_getset(setters=True) + g.cpp_geom(mutators=True, sizes=True) + g.cpp_cursor() + g.cpp_cursor_ranges(), std=std, mode=mode, incs=[inc])
             N = g.max_size(E, D) + 1
             dynamic = bool(msg.groups or msg.data)
             for lv in g.levels:
                 for kind, arms, mk in (("get", c02.leaf_arms(g, lv, sch) + c02.dyn_arms(g, lv), c02.harness), ("set", c01.arms_for(g, lv), c01.harness), ("size", size_arms(g, lv), c02.harness),
-                                       ("cursor", c04.arms_for(g, lv, mode == "checked"), c04.harness)):
+                                       ("cursor", c04.arms_for(g, lv, mode == "checked"), c04.harness), ("range", c04.range_arms(g, lv), c04.harness)):
                     if not arms: continue
                     groups = [[a] for a in arms] if dynamic else [arms[j:j + 6] for j in range(0, len(arms), 6)]
                     for k, chunk in enumerate(groups):
@@ -53,6 +57,22 @@ def build(ctx):
                                             meta={"big_loops": ["ref_walk_%s.%d" % (msg.name, x) for x in range(16)]},
                                             desc="message %s.%s level %s under schema extension (wire blockLength up to compiled+%d at every level): %s %s found where the wire image puts it" % (sch.ns, msg.name, lv.name, E, kind, [a[0] for a in chunk]),
                                             bounds={"N": N, "G": G, "D": D, "E": E, "std": "c++" + std, "build": mode, "byte_order": "BE" if sch.be else "LE"}))
+    # visiting under extension: the recording-visitor harness of C19 with the same extension bound as the other C03 arms (nested messages: G=1 in the quick tier)
+    for (xml, std, mode) in ([plan[0], plan[2]] if ctx.quick else plan):
+        sch, inc = hgen.gen_headers(ctx, xml)
+        for msg in sch.messages:
+            if ctx.quick and msg.name in c02.QUICK_SKIP: continue
+            if c02.skip2(ctx, sch, msg, KEEP2 + ("gng",)): continue
+            g = msggen.MG(sch, msg, 1 if (ctx.quick and any(gr.groups for gr in msg.groups)) else G)
+            tags, lines, capn = msggen.visit_model(g)
+            u = ctx.lower("c19_%s_%s" % (sch.ns, msg.name), g.cpp_prelude() + msggen.cpp_visit(g, tags), std=std, mode=mode, incs=[inc])
+            N = g.max_size(E, 1) + 1
+            fn = "visitc_%s" % g.M
+            hs.append(P.Harness("%s_%s_ext_%s_cxx%s" % (sch.ns, fn, mode, std), c19.harness(u, g, lines, capn + 1, N, E, 1, fn, False), [u], unwind=G + 2,
+                                cap=ctx.q(300, 900), backends=["minisat", "kissat"], extra_flags=["--no-standard-checks"],
+                                meta={"big_loops": ["ref_walk_%s.%d" % (msg.name, x) for x in range(16)]},
+                                desc="%s.%s under schema extension (wire blockLength up to compiled+%d at every level): visit_children with a recording visitor reports every member/entry where the wire image puts it; final cursor at the wire end" % (sch.ns, msg.name, E),
+                                bounds={"N": N, "G": g.G, "D": 1, "E": E, "std": "c++" + std, "build": mode}))
     # wire blockLength over the WHOLE type range (an extension can be arbitrarily large): entry i of a flat group is at data start + i x wire blockLength
     schd, incd = hgen.gen_headers(ctx, "vs_dims.xml")
     pairs = [(n, b) for n in c12.U for b in c12.U]
